@@ -191,17 +191,122 @@ pub fn run(ctx: &Ctx) -> Report {
             st.merge(r);
         }
     }
+    print_stage(ctx, &mut st, ctx.seed ^ 0x9c16, ctx.tier.pick(80, 1200));
     let mut rep = Report::new(
         st,
-        "jobs = all 40 sizes x 4 levels x payloads (capacity-filling + random; thorough: x 8 mask slots), mask rotating over forced 0..7 and automatic; to_str() is split into lines, every character mapped to a (top, bottom) pair (space = dark/dark, U+2588 = light/light, U+2580 = light/dark, U+2584 = dark/light) and the resulting grid compared cell by cell with a one-module light border around the module values; crafted byte payloads make the data area of the final symbol uniformly dark / light / striped (24 targets x versions, with the matching forced mask); a concurrent burst (16 threads released from a barrier, 1,500 renders each, quick; 20,000 thorough, of pre-built symbols of 12 sizes, every text decoded); jobs are executed in shuffled order and every second job first renders (and checks) a symbol of an unrelated size on the same thread, so each rendering happens after bigger and after smaller ones; distinct key = (options, len, payload hash); every case non-trivial",
+        "jobs = all 40 sizes x 4 levels x payloads (capacity-filling + random; thorough: x 8 mask slots), mask rotating over forced 0..7 and automatic; to_str() is split into lines, every character mapped to a (top, bottom) pair (space = dark/dark, U+2588 = light/light, U+2580 = light/dark, U+2584 = dark/light) and the resulting grid compared cell by cell with a one-module light border around the module values; crafted byte payloads make the data area of the final symbol uniformly dark / light / striped (24 targets x versions, with the matching forced mask); a concurrent burst (16 threads released from a barrier, 1,500 renders each, quick; 20,000 thorough, of pre-built symbols of 12 sizes, every text decoded); print() is observed through a pipe: a child process prints 80 (thorough 1,200) symbols covering every version between marker lines, each block is judged like a to_str() result; jobs are executed in shuffled order and every second job first renders (and checks) a symbol of an unrelated size on the same thread, so each rendering happens after bigger and after smaller ones; distinct key = (options, len, payload hash); every case non-trivial",
     );
-    rep.expected_sets = vec![("sizes", 40)];
-    rep.required_sets = vec![("sizes", 40)];
+    rep.expected_sets = vec![("sizes", 40), ("sizes_printed", 40)];
+    rep.required_sets = vec![("sizes", 40), ("sizes_printed", 40)];
     rep.min_evaluations = 480;
     rep
 }
 
+/// The configurations whose symbols the child prints: every version at least twice (capacity-filling and short).
+fn print_cases(caps: &oracle::tables::Caps, seed: u64, n: usize) -> Vec<adapter::Config> {
+    (0..n)
+        .map(|i| {
+            let v = 1 + i % 40;
+            let level = (i / 40 + i) % 4;
+            let cap = caps.cap(v, level, 2);
+            let len = if (i / 40) % 2 == 0 { cap } else { 1 + mix(seed, i as u64) as usize % cap.max(1) };
+            adapter::Config { input: crate::job::gen_payload(2, len, i % GEN_COUNT, mix(seed, 0x9c16 + i as u64)), mode: Some(2), level: Some(level), version: Some(v), mask: rotate_mask(i) }
+        })
+        .collect()
+}
+
+/// child side: `vcheck c16-child <seed> <n>` builds the cases and calls `QRCode::print()` on each, between marker
+/// lines. `print()` writes to the process's stdout, so it can only be observed from outside the process.
+pub fn child_main(seed: u64, n: usize) -> i32 {
+    let caps = oracle::tables::Caps::new();
+    for (i, cfg) in print_cases(&caps, seed, n).iter().enumerate() {
+        match adapter::build_canonical(cfg) {
+            Outcome::Ok(q) => {
+                println!("@@C16 BEGIN {i}");
+                q.print();
+                println!("@@C16 END {i}");
+            }
+            other => println!("@@C16 NOSYMBOL {i} {}", other.kind()),
+        }
+    }
+    0
+}
+
+/// `print()` observed through a pipe: the child's stdout is cut at the markers, the `println!` newline removed, and
+/// each block judged exactly like a `to_str()` result against the same symbol rebuilt in this process.
+fn print_stage(ctx: &Ctx, st: &mut Stats, seed: u64, n: usize) {
+    let exe = match std::env::current_exe() {
+        Ok(e) => e,
+        Err(e) => {
+            st.inconclusive(format!("print stage: current_exe: {e}"));
+            return;
+        }
+    };
+    let out = match std::process::Command::new(exe).args(["c16-child", &seed.to_string(), &n.to_string()]).stdin(std::process::Stdio::null()).stderr(std::process::Stdio::null()).output() {
+        Ok(o) => o,
+        Err(e) => {
+            st.inconclusive(format!("print stage: cannot start the child: {e}"));
+            return;
+        }
+    };
+    let jobj = |i: usize| json!({"fam": "print-to-stdout", "seed": seed, "n": n, "index": i});
+    if !out.status.success() {
+        st.violation(ID, "print-child-died", format!("the process that calls print() on {n} symbols ended with {:?}", out.status), jobj(0));
+        return;
+    }
+    let text = match String::from_utf8(out.stdout) {
+        Ok(t) => t,
+        Err(_) => {
+            st.violation(ID, "print-not-utf8", "print() wrote bytes that are not UTF-8".into(), jobj(0));
+            return;
+        }
+    };
+    let cases = print_cases(&ctx.caps, seed, n);
+    let mut seen = 0usize;
+    for (i, cfg) in cases.iter().enumerate() {
+        st.eval();
+        let begin = format!("@@C16 BEGIN {i}\n");
+        let end = format!("\n@@C16 END {i}\n");
+        let qr = match adapter::build_canonical(cfg) {
+            Outcome::Ok(q) => q,
+            other => {
+                st.inconclusive(format!("print stage: workload bug, case {i} does not build here: {}", other.describe()));
+                return;
+            }
+        };
+        let (a, b) = match (text.find(&begin), text.find(&end)) {
+            (Some(a), Some(b)) if a + begin.len() <= b => (a + begin.len(), b),
+            _ => {
+                // the block's own last newline may be missing: then END is glued to the last line
+                st.violation(ID, "print/markers", format!("the output of print() for case {i} (version {}) is not followed by a line break: the marker line written right after it does not start a line", cfg.version.unwrap_or(0)), jobj(i));
+                return;
+            }
+        };
+        let block = &text[a..b];
+        match svgcheck::check_terminal(block, &qr) {
+            Ok(c) => {
+                st.count("cells_decoded_from_text", c);
+                st.count("print_calls_observed_through_a_pipe", 1);
+                st.reach("sizes_printed", qr.size as u64);
+                seen += 1;
+            }
+            Err(v) => {
+                st.violation(ID, &format!("print/{}", v.0), format!("print() of a version {} symbol: {}", cfg.version.unwrap_or(0), v.1), jobj(i));
+                return;
+            }
+        }
+    }
+    if seen == 0 {
+        st.inconclusive("print stage: no print() output was observed".to_string());
+    }
+}
+
 pub fn replay(ctx: &Ctx, job: &serde_json::Value) -> Option<Stats> {
+    if job.get("fam").and_then(|f| f.as_str()) == Some("print-to-stdout") {
+        let mut st = Stats::new();
+        print_stage(ctx, &mut st, job.get("seed")?.as_u64()?, job.get("n")?.as_u64()? as usize);
+        return Some(st);
+    }
     let job = Job::from_json(job, &FAMS)?;
     let mut st = Stats::new();
     observe(ctx, &mut st, &job);
